@@ -126,8 +126,12 @@ def build(name, seed=0):
     raise ValueError(name)
 
 
-def make_panel(rng, ni, nc, nt, cells="S", positive=False, plateaus=False, classes=2):
-    """class-separable panel: class k adds a sinusoid of frequency k+1; returns (nested DataFrame, class index array, 3-d array)"""
+UNEQUAL_OK = {"padder", "padder20", "truncate", "truncate2_6", "interp7"}     # transformers documented for panels of unequal-length series
+
+
+def make_panel(rng, ni, nc, nt, cells="S", positive=False, plateaus=False, classes=2, lengths=None):
+    """class-separable panel: class k adds a sinusoid of frequency k+1; returns (nested DataFrame, class index array, 3-d array);
+    lengths: per-instance series lengths (<= nt) for an unequal-length panel (the 3-d array is None then)"""
     cls = rng.integers(0, classes, size=ni)
     cls[:classes] = np.arange(classes)          # every class present
     t = np.arange(nt)
@@ -143,6 +147,9 @@ def make_panel(rng, ni, nc, nt, cells="S", positive=False, plateaus=False, class
             arr[i, :, s:s + int(rng.integers(2, 4))] = 0.0
     arr = np.round(arr, 6)
     cont = (lambda v: pd.Series(v)) if cells == "S" else (lambda v: np.array(v))
+    if lengths is not None:
+        df = pd.DataFrame({"dim_%d" % j: [cont(arr[i, j, :int(lengths[i])].copy()) for i in range(ni)] for j in range(nc)})
+        return df, cls, None
     df = pd.DataFrame({"dim_%d" % j: [cont(arr[i, j].copy()) for i in range(ni)] for j in range(nc)})
     return df, cls, arr
 
